@@ -115,16 +115,24 @@ def op : P (Op Float) := do
   | "R" => pure .reset
   | "S" => do let d ← pdata; let tf ← flt; let fuel ← nat; let k0 ← nat; pure (.solve d tf fuel k0)
   | "T" => do let is ← lst nat; pure (.ttpInit is)
+  | "P" => do
+      let cfgs ← lst (do
+        let a ← flt; let b ← flt; let n ← nat; let mn ← nat; let mx ← nat; let ad ← bool; let rc ← bool
+        pure (⟨a, b, n, mn, mx, ad, rc⟩ : PBMCfg Float))
+      pure (.setPBM cfgs)
+  | "G" => do let p ← nat; let a ← flt; let b ← flt; let n ← nat; pure (.regrid p a b n)
   | _ => failure
 
 def showReg (k : Nat) (s : Reg Float) : String :=
   let ls := (List.range k).map (fun i => showLatch (s.latches i))
   let rs := s.reg.map (fun r => s!"{r.1} {bstr r.2}")
-  " ".intercalate (ls ++ (toString s.reg.length :: rs))
+  let ps := s.pbm.map (fun p => s!"{fout p.cfg.cMin} {fout p.cfg.cMax} {p.cfg.bins} {p.cfg.minBins} {p.cfg.maxBins} {bstr p.cfg.adaptive} {bstr p.cfg.record} {fout p.gMin} {fout p.gMax} {p.gBins}")
+  " ".intercalate (ls ++ (toString s.reg.length :: rs) ++ (toString s.pbm.length :: ps))
 
 /-- sc.hist  names k conds(k)  nops ops   — a whole history of calls on ONE model, all pool objects new (clear)
     → after every call: last row and stopped-early of that call (0 F unless it is a solve), the k pool latches,
-      the registered list (index, mode) -/
+      the registered list (index, mode), the population balance models (configuration + grid in use)
+    calls: A i mode | C | R | S history tf fuel k0 | T is | P cfgs (setPBMParameters/setPSDrecording) | G p min max bins (re-meshing seen) -/
 def hist : P String := do
   let ph ← lst tok; let el ← lst tok
   let k ← nat
